@@ -101,7 +101,10 @@ class Check:
         if isinstance(e, ast.Attribute):
             try:
                 canon = self.ctx.facts.analyse(func).canon
-                return f'{canon.key(e.value)}.{e.attr}', ctx
+                rk = canon.key(e.value)
+                if rk.isidentifier() and rk not in ('self', 'cls'):
+                    rk = '<local>'   # the name of a local is not part of a construct's identity
+                return f'{rk}.{e.attr}', ctx
             except Exception:  # noqa: BLE001
                 return callee, ctx
         return callee, ctx
